@@ -247,6 +247,20 @@ def run(ch: Checker) -> None:
     who_may_close_check(ch, 'C10.7')
 
     # ---------------- C10.12/13 (shared)
+    ch.rule('C10.15', 'UpstreamConnectionPool._remove releases a pooled connection completely on every way through it: conn.close() and both bookkeeping removals are attempted also when the '
+                      'socket-level shutdown raises (the origin reset the connection)', 3)
+    rm15 = prog.own_method('UpstreamConnectionPool', '_remove')
+    g15 = cfg_of(rm15, prog)
+    for label15, pred15 in (('conn.close()', lambda a: any(isinstance(c_, ast.Call) and isinstance(c_.func, ast.Attribute) and c_.func.attr == 'close' and not (attr_chain(c_.func.value) or '').endswith('.connection') for c_ in walk_no_nested(a))),
+                            ('pools[addr].remove(conn)', lambda a: any(isinstance(c_, ast.Call) and isinstance(c_.func, ast.Attribute) and c_.func.attr in ('remove', 'discard') and 'self.pools' in norm(c_.func.value) for c_ in walk_no_nested(a))),
+                            ('del connections[fileno]', lambda a: (isinstance(a, ast.Delete) and any('self.connections' in norm(t_) for t_ in a.targets)) or any(isinstance(c_, ast.Call) and attr_chain(c_.func) == 'self.connections.pop' for c_ in walk_no_nested(a)))):
+        # the exceptions the function itself expects: those its own handlers catch (socket.shutdown raises OSError; anything else is a programming error)
+        def caught15(p: Any) -> bool:
+            return all(i_ + 1 < len(p.steps) and g15.nodes[p.steps[i_ + 1][0]].kind == 'handler' for i_, (nid_, lab_) in enumerate(p.steps) if lab_ == 'exc')
+        n15, cex15 = must_attempt(g15, pred15, caught15, exc_source=lambda a: any(isinstance(c_, ast.Call) and isinstance(c_.func, ast.Attribute) and c_.func.attr == 'shutdown' for c_ in walk_no_nested(a)))
+        ch.check(cex15 is None and n15 > 0, 'C10.15', rm15, label15, 'attempted on all %d path(s), also when shutdown(SHUT_WR) raises' % n15,
+                 'a path of _remove (%s) skips %s: after the origin reset a pooled connection the pool keeps the socket open and keeps counting it -- a descriptor and a registry entry leak per reset, '
+                 'for the life of the worker' % (cex15[0] if cex15 else '', label15), witness=cex15[1] if cex15 else None)
     ch.import_rules('C20', {'C20.1': 'C10.12', 'C20.2': 'C10.13'}, 'a connection that ends by idle timeout is only ever released if the idle predicate can become true for it')
 
     # ---------------- C10.8 (shared)
